@@ -94,6 +94,11 @@ func genC11(repo string) (string, error) {
 		return "", err
 	}
 	o.strList("balance_region_filters", el, "balance-region transferPeer: target filters")
+	np, err := c10ast.AssignSrc(br, tp, "newPeer")
+	if err != nil {
+		return "", err
+	}
+	fmt.Fprintf(&o.sb, "Definition balance_region_new_peer : string := (* transferPeer: the replacement keeps the role of the old peer *)\n  %s.\n", goast.Q(np))
 	if err := o.skeleton(br, "balanceRegionScheduler", "transferPeer", "skel_transferPeer",
 		goast.SkelOpt{Calls: set("NewCandidates", "FilterTarget", "Sort", "shouldBalance", "CreateMovePeerOperator", "GetStorePeer"), Conds: true}); err != nil {
 		return "", err
